@@ -28,6 +28,7 @@ type FakeComet struct {
 	Subs  atomic.Int64 // subscribe calls seen
 	Unsub atomic.Int64
 	Sent  atomic.Int64 // event frames written
+	Resub atomic.Int64 // subscribe calls for a query the connection was still subscribed to
 }
 
 type fcConn struct {
@@ -101,6 +102,9 @@ func (f *FakeComet) handle(w http.ResponseWriter, r *http.Request) {
 		case "subscribe":
 			f.Subs.Add(1)
 			c.mu.Lock()
+			if _, dup := c.subs[p.Query]; dup {
+				f.Resub.Add(1) // subscribe for a query this connection is still subscribed to
+			}
 			c.subs[p.Query] = req.ID
 			c.mu.Unlock()
 		case "unsubscribe":
@@ -125,6 +129,21 @@ func (f *FakeComet) handle(w http.ResponseWriter, r *http.Request) {
 			return
 		}
 	}
+}
+
+// Subscribed tells whether any connection currently holds a subscription for query.
+func (f *FakeComet) Subscribed(query string) bool {
+	f.mu.Lock()
+	defer f.mu.Unlock()
+	for c := range f.conns {
+		c.mu.Lock()
+		_, ok := c.subs[query]
+		c.mu.Unlock()
+		if ok {
+			return true
+		}
+	}
+	return false
 }
 
 // Emit pushes ev to every connection currently subscribed to ev.Query. It returns the number of frames written.
